@@ -323,5 +323,27 @@ _ADD4 = {
 }
 for _k, _r in _ADD4.items():
     PROPS[_k]['rule'] = PROPS[_k]['rule'] + _r
+# round-5 additions (rule text only)
+_ADD5 = {
+    'C01': ' Plus: the control plane re-sends the very same resources (byte for byte) under a new version and nonce; route tables that carry a universe name but cannot be converted.',
+    'C04': ' Plus: slowOutage - three failed stream creations with the client\'s real back-off: a cached name is served at once and an unknown name gives up at its 50 ms fetch timeout while the client reconnects.',
+    'C05': ' Plus: placeholder cases (two waiting lookups, a response carrying one resource well-formed and the other under its own name but not convertible: both end with an error, never a nil placeholder); slowOutage.',
+    'C06': ' Plus: handlerOrder (an update that runs a slow registered handler while lookups of its name arrive and wait); two spellings of one listener (name table required) waiting for one response.',
+    'C07': ' Plus: the suite\'s own circuit-breaker handler at the moment of exposure (12 rounds on one processor: the configuration of the delivering update is in force); a registered handler that panics inside an update leaves nothing locked.',
+    'C08': ' Plus: routes that select no cluster (the first match fails the call, no fall-through); the listener is replaced right after it has been read (one call is routed by one state of its listener); every route carries a retry policy.',
+    'C10': ' Plus: in the history the control plane follows the nonce rule (a subscription with an outdated nonce is not answered), an endpoint response is rejected before a new subscription, a cluster is removed and listed again with other endpoints.',
+    'C11': ' Plus: struct values of any JSON kind in TypedStruct token buckets, locality priorities in no particular order.',
+    'C12': ' Plus: locality priorities in no particular order (message order is kept), hosts spelt with capitals next to their lower-case twins in name tables.',
+    'C13': ' Plus: TypedStruct token-bucket values that are not numbers (quoted numbers, null, booleans, structs, no kind).',
+    'C14': ' Plus: two-slot name-table responses (an undecodable first slot rejects the response as a whole; a well-formed first slot is the table).',
+    'C15': ' Plus: every route carries a retry policy whose per-try timeout differs from the route timeout (the call timeout is the route\'s).',
+    'C16': ' Plus: cluster responses rejected as a whole between accepted ones (breakers and the cache a late breaker starts from stay as they are).',
+    'C17': ' Plus: a destination cluster shared by several route tables (its policies stay while any cached table names it).',
+    'C18': ' Plus: half of the chains carry inline route tables of one name with different buckets.',
+    'C19': ' Plus: lookups of a name the control plane removed (they give up at their deadline); the name is listed again after the sweep and looked up again (subscribes again, obtains the value).',
+    'C20': ' Plus: name expansion of two hosts under every generated configuration of the process; pod names with dots, also ending like the namespace.',
+}
+for _k, _r in _ADD5.items():
+    PROPS[_k]['rule'] = PROPS[_k]['rule'] + _r
 PROPS['C07']['level_note'] = 'PARTIAL: data-race freedom is the Go memory model (not modelled; the locking discipline, a dump-vs-update exclusion scenario and the race detector of the thorough tier are what is checked). Deadlock freedom: mutex order + progress of lookups + the request path at capacity (Flow layer); S12 and S15 are recorded findings. Trusted: Lean kernel; Go runtime; extractor (lockEdges, updateOrder, flow facts, regShape); harness.'
 PROPS['C07']['assumptions'] = [a for a in PROPS['C07']['assumptions'] if 'outside the model (documented limitation S12)' not in a] + ['the lock-nesting edges come from a syntactic intra-package call graph (function names)']
